@@ -653,6 +653,24 @@ func oracle(c *Case, r *Result) []string {
 			fails = append(fails, fmt.Sprintf("class=block-exist: Chain.BlockExist(%d)=%v but stored=%v orphan=%v", i, r.Exist[i], r.Stored[i], r.Orphan[i]))
 		}
 	}
+	// "connected as if the blocks had arrived in order": these trees carry no votes besides the node's
+	// own (one of four validators), so nothing is justified and in-order delivery ends with the best
+	// block at the greatest stored height
+	{
+		height := make([]uint64, n+1)
+		var top uint64
+		for i := 1; i <= n; i++ {
+			height[i] = height[c.Parents[i-1]] + 1
+		}
+		for i := 0; i <= n; i++ {
+			if r.Stored[i] && height[i] > top {
+				top = height[i]
+			}
+		}
+		if r.Best != top {
+			fails = append(fails, fmt.Sprintf("class=best-not-highest: after the last delivery the best block is at height %d but a connected block at height %d is stored (in-order delivery ends at %d)", r.Best, top, top))
+		}
+	}
 	if r.Ref != nil {
 		for i := 0; i <= n; i++ {
 			if r.Stored[i] != r.Ref[i] {
